@@ -191,6 +191,10 @@ func RenderTraveler(traveler gdbi.Traveler, template interface{}) interface{} {
 
 // SelectTravelerFields returns a new copy of the traveler with only the selected fields
 func SelectTravelerFields(t gdbi.Traveler, keys ...string) gdbi.Traveler {
+	if t.GetCurrent() == nil {
+		// no current element (null-producing steps): there are no fields to select
+		return t
+	}
 	includePaths := []string{}
 	excludePaths := []string{}
 KeyLoop:
